@@ -19,8 +19,11 @@
 // (AuthMethods → HandleUser) and then HandleAuthPluginData with a properly scrambled response.
 //
 // Observation: the outcome of every login in order (accept:<user>@<host> | deny | nomethod | crash), then the
-// account table as the engine reports it at the end (sorted). The Lean driver replays the history on its
-// model of the table (Gms/Model/AuthHist.lean: stepI / loginI, Spec stepS / loginS).
+// account table as the engine reports it at the end (sorted), then — per login — what the OTHER entry points
+// say about the same client at that moment: the caching_sha2 fast path with an empty response, HandleUser
+// for caching_sha2_password, and MySQLDb.ValidateHash with the same salt and response (every entry point must
+// read the current table, not only the native handshake). The Lean driver replays the history on its model
+// of the table (Gms/Model/AuthHist.lean: stepI / loginI, Spec stepS / loginS).
 //
 // Model-free oracle: the harness keeps its own record of what every statement said (password, lock flag,
 // existence) and checks each login against it.
@@ -93,14 +96,29 @@ func apiLogin(as mysql.AuthServer, user, host string, salt, resp []byte) string 
 	return obs
 }
 
+// otherEntryPoints: the same client seen by the caching_sha2 fast path, by the caching_sha2 validator and by
+// MySQLDb.ValidateHash.
+func otherEntryPoints(db *mysql_db.MySQLDb, user, host string, salt, resp []byte) string {
+	fast, _ := sha2FastObs(db, user, nil, host)
+	var ok bool
+	m := "crash"
+	if p := hx.Safe(func() { ok = mysql_db.VerifHandleUser(db, "caching_sha2_password", user, tcpAddr(host)) }); p == "" {
+		m = b01(ok)
+	}
+	var g mysql.Getter
+	var err error
+	p := hx.Safe(func() { g, err = db.ValidateHash(salt, user, resp, tcpAddr(host)) })
+	return fast + "," + m + "," + getterObs(g, err, p)
+}
+
 type hAcct struct {
 	name, host, plugin, pw string
-	auth                    string
-	locked                  bool     // what the statements said
-	storedLocked            bool     // what the code stores (CREATE USER … ACCOUNT LOCK stores N)
-	sub                     bool     // holds a database-level grant
-	dup                     bool     // the row has been duplicated (region dml_update_keeps_old_row_of_scoped_account)
-	oldPws                  []string // passwords this account had before
+	auth                   string
+	locked                 bool     // what the statements said
+	storedLocked           bool     // what the code stores (CREATE USER … ACCOUNT LOCK stores N)
+	sub                    bool     // holds a database-level grant
+	dup                    bool     // the row has been duplicated (region dml_update_keeps_old_row_of_scoped_account)
+	oldPws                 []string // passwords this account had before
 }
 
 // lockIgnored: region create_user_account_lock_ignored.
@@ -110,8 +128,6 @@ type histGen struct {
 	r     *hx.Rand
 	accts map[string]*hAcct // key name\x00host: what the statements said
 	gone  map[string][]string
-	evs   []string
-	sqls  []string
 }
 
 func hkey(n, h string) string { return n + "\x00" + h }
@@ -164,6 +180,14 @@ func (g *histGen) matching(user, host string) []*hAcct {
 	return out
 }
 
+// create records a CREATE USER statement (no effect on the record when the account exists).
+func (g *histGen) create(n, h, pw string, lock bool) histStep {
+	if _, exists := g.accts[hkey(n, h)]; !exists {
+		g.accts[hkey(n, h)] = &hAcct{name: n, host: h, plugin: "mysql_native_password", pw: pw, auth: nativeHash(pw), locked: lock, storedLocked: false}
+	}
+	return stCreateUser(n, h, pw, lock)
+}
+
 // next appends one statement (and returns its SQL) chosen according to the current record.
 func (g *histGen) stmt() (ev string, q string) {
 	r := g.r
@@ -174,21 +198,13 @@ func (g *histGen) stmt() (ev string, q string) {
 			if exists && g.accts[hkey(n, h)].dup {
 				continue
 			}
-			pw := hx.Pick(r, histPws)
-			lock := r.Chance(1, 7)
-			q = fmt.Sprintf("CREATE USER %s@%s", sqlStr(n), sqlStr(h))
-			if pw != "" {
-				q += " IDENTIFIED WITH mysql_native_password BY " + sqlStr(pw)
-			}
-			if lock {
-				q += " ACCOUNT LOCK"
-			}
-			if !exists {
-				g.accts[hkey(n, h)] = &hAcct{name: n, host: h, plugin: "mysql_native_password", pw: pw, auth: nativeHash(pw), locked: lock, storedLocked: false}
-			}
-			return hx.List("cu", hx.HexS(n), hx.HexS(h), hx.HexS("mysql_native_password"), hx.HexS(nativeHash(pw)), b01(lock)), q
+			st := g.create(n, h, hx.Pick(r, histPws), r.Chance(1, 7))
+			return st.ev, st.sql
 		case x < 8: // CREATE ROLE
 			n := hx.Pick(r, []string{"r1", "r2"})
+			if a, ok := g.accts[hkey(n, "%")]; ok && a.dup {
+				continue
+			}
 			if _, ok := g.accts[hkey(n, "%")]; !ok {
 				g.accts[hkey(n, "%")] = &hAcct{name: n, host: "%", plugin: "mysql_native_password", locked: true, storedLocked: true}
 			}
@@ -221,7 +237,7 @@ func (g *histGen) stmt() (ev string, q string) {
 			return hx.List("gg", hx.HexS(n), hx.HexS(h)), fmt.Sprintf("GRANT SELECT ON *.* TO %s@%s", sqlStr(n), sqlStr(h))
 		case x < 20: // GRANT (database level)
 			n, h, exists := g.pickKey(true)
-			if !exists || g.accts[hkey(n, h)].dup {
+			if !exists || g.accts[hkey(n, h)].dup || n == "root" { // (a duplicated root row makes every later statement panic)
 				continue
 			}
 			g.accts[hkey(n, h)].sub = true
@@ -289,7 +305,9 @@ func (g *histGen) stmt() (ev string, q string) {
 			pw := hx.Pick(r, histPws)
 			lock := r.Chance(1, 5)
 			if !exists {
-XX, hx.HexS(n), hx.HexS(h), hx.HexS("mysql_native_password"), hx.HexS(nativeHash(pw)), b01(lock)),
+				g.accts[hkey(n, h)] = &hAcct{name: n, host: h, plugin: "mysql_native_password", pw: pw, auth: nativeHash(pw), locked: lock, storedLocked: lock}
+			}
+			return hx.List("in", hx.HexS(n), hx.HexS(h), hx.HexS("mysql_native_password"), hx.HexS(nativeHash(pw)), b01(lock)),
 				fmt.Sprintf("INSERT INTO mysql.user (Host, User, plugin, authentication_string, account_locked) VALUES (%s, %s, 'mysql_native_password', %s, '%s')",
 					sqlStr(h), sqlStr(n), sqlStr(nativeHash(pw)), map[bool]string{true: "Y", false: "N"}[lock])
 		}
@@ -335,6 +353,119 @@ type histStep struct {
 	login   *histLogin
 }
 
+// statement constructors: the protocol event and its SQL text
+func yn(b bool) string {
+	if b {
+		return "Y"
+	}
+	return "N"
+}
+func stCreateUser(n, h, pw string, lock bool) histStep {
+	q := fmt.Sprintf("CREATE USER %s@%s", sqlStr(n), sqlStr(h))
+	if pw != "" {
+		q += " IDENTIFIED WITH mysql_native_password BY " + sqlStr(pw)
+	}
+	if lock {
+		q += " ACCOUNT LOCK"
+	}
+	return histStep{ev: hx.List("cu", hx.HexS(n), hx.HexS(h), hx.HexS("mysql_native_password"), hx.HexS(nativeHash(pw)), b01(lock)), sql: q}
+}
+func stCreateRole(n string) histStep {
+	return histStep{ev: hx.List("cr", hx.HexS(n)), sql: "CREATE ROLE " + n}
+}
+func stAlterUser(n, h, pw string) histStep {
+	return histStep{ev: hx.List("au", hx.HexS(n), hx.HexS(h), hx.HexS("mysql_native_password"), hx.HexS(nativeHash(pw))),
+		sql: fmt.Sprintf("ALTER USER %s@%s IDENTIFIED WITH mysql_native_password BY %s", sqlStr(n), sqlStr(h), sqlStr(pw))}
+}
+func stDropUser(n, h string) histStep {
+	return histStep{ev: hx.List("du", hx.HexS(n), hx.HexS(h)), sql: fmt.Sprintf("DROP USER %s@%s", sqlStr(n), sqlStr(h))}
+}
+func stGrantGlobal(n, h string) histStep {
+	return histStep{ev: hx.List("gg", hx.HexS(n), hx.HexS(h)), sql: fmt.Sprintf("GRANT SELECT ON *.* TO %s@%s", sqlStr(n), sqlStr(h))}
+}
+func stGrantDb(n, h string) histStep {
+	return histStep{ev: hx.List("gd", hx.HexS(n), hx.HexS(h)), sql: fmt.Sprintf("GRANT SELECT ON d.* TO %s@%s", sqlStr(n), sqlStr(h))}
+}
+func stFlush() histStep { return histStep{ev: hx.List("fl"), sql: "FLUSH PRIVILEGES"} }
+func whereKey(n, h string) string {
+	return fmt.Sprintf(" WHERE User = %s AND Host = %s", sqlStr(n), sqlStr(h))
+}
+func stDmlLock(n, h string, b bool) histStep {
+	return histStep{ev: hx.List("ul", hx.HexS(n), hx.HexS(h), b01(b)), sql: "UPDATE mysql.user SET account_locked = '" + yn(b) + "'" + whereKey(n, h)}
+}
+func stDmlAuth(n, h, pw string) histStep {
+	return histStep{ev: hx.List("ua", hx.HexS(n), hx.HexS(h), hx.HexS(nativeHash(pw))), sql: "UPDATE mysql.user SET authentication_string = " + sqlStr(nativeHash(pw)) + whereKey(n, h)}
+}
+func stDmlPlugin(n, h, pl string) histStep {
+	return histStep{ev: hx.List("up", hx.HexS(n), hx.HexS(h), hx.HexS(pl)), sql: "UPDATE mysql.user SET plugin = " + sqlStr(pl) + whereKey(n, h)}
+}
+func stDmlDelete(n, h string) histStep {
+	return histStep{ev: hx.List("dd", hx.HexS(n), hx.HexS(h)), sql: "DELETE FROM mysql.user" + whereKey(n, h)}
+}
+func stDmlInsert(n, h, pw string, lock bool) histStep {
+	return histStep{ev: hx.List("in", hx.HexS(n), hx.HexS(h), hx.HexS("mysql_native_password"), hx.HexS(nativeHash(pw)), b01(lock)),
+		sql: fmt.Sprintf("INSERT INTO mysql.user (Host, User, plugin, authentication_string, account_locked) VALUES (%s, %s, 'mysql_native_password', %s, '%s')",
+			sqlStr(h), sqlStr(n), sqlStr(nativeHash(pw)), yn(lock))}
+}
+func stLogin(u, h, pw string) histStep {
+	return histStep{ev: hx.List("lg", hx.HexS(u), hx.HexS(h), hx.HexS(pw)), login: &histLogin{u, h, pw}}
+}
+
+// histCorpus: fixed histories — ordinary account management between logins, the same changes made with DML on
+// mysql.user right after successful logins of the same client (lock, password, plugin, delete, re-insert), and
+// the witnesses of the two listed findings.
+func histCorpus(out *hx.Out) {
+	hs := [][]histStep{
+		{ // account-management statements between logins
+			stCreateUser("bob", "%", "oldpass", false), stCreateUser("carol", "10.%", "carolpass", false), stCreateUser("dave", "%", "davepass", false),
+			stLogin("bob", "192.168.1.20", "oldpass"), stLogin("bob", "192.168.1.20", "nope"), stLogin("carol", "10.1.2.3", "carolpass"),
+			stLogin("carol", "11.1.2.3", "carolpass"), stLogin("dave", "172.16.0.9", "davepass"), stLogin("erin", "172.16.0.9", "davepass"),
+			stAlterUser("bob", "%", "midpass"), stLogin("bob", "192.168.1.20", "oldpass"), stLogin("bob", "192.168.1.20", "midpass"),
+			stDropUser("dave", "%"), stLogin("dave", "172.16.0.9", "davepass"),
+			stCreateUser("dave", "%", "davepass2", false), stLogin("dave", "172.16.0.9", "davepass"), stLogin("dave", "172.16.0.9", "davepass2"),
+			stGrantGlobal("carol", "10.%"), stLogin("carol", "10.1.2.3", "carolpass"), stFlush(), stLogin("bob", "192.168.1.20", "midpass"),
+		},
+		{ // DML on the grant table right after a successful login of the same client
+			stCreateUser("carol", "10.%", "carolpass", false), stLogin("carol", "10.1.2.3", "carolpass"),
+			stDmlLock("carol", "10.%", true), stLogin("carol", "10.1.2.3", "carolpass"),
+			stDmlLock("carol", "10.%", false), stLogin("carol", "10.1.2.3", "carolpass"),
+		},
+		{
+			stCreateUser("bob", "%", "midpass", false), stLogin("bob", "192.168.1.20", "midpass"),
+			stDmlAuth("bob", "%", "newpass"), stLogin("bob", "192.168.1.20", "midpass"), stLogin("bob", "192.168.1.20", "newpass"),
+			stDmlPlugin("bob", "%", "caching_sha2_password"), stLogin("bob", "192.168.1.20", "newpass"),
+			stDmlPlugin("bob", "%", "mysql_native_password"), stLogin("bob", "192.168.1.20", "newpass"),
+		},
+		{
+			stCreateUser("dave", "%", "davepass2", false), stLogin("dave", "172.16.0.9", "davepass2"),
+			stDmlDelete("dave", "%"), stLogin("dave", "172.16.0.9", "davepass2"),
+			stDmlInsert("dave", "%", "third", false), stLogin("dave", "172.16.0.9", "davepass2"), stLogin("dave", "172.16.0.9", "third"),
+		},
+		{ // a failed attempt is enough to have resolved the account; localhost spelled as an address
+			stCreateUser("u1", "localhost", "pw", false), stLogin("u1", "127.0.0.1", "nope"), stDmlLock("u1", "localhost", true),
+			stLogin("u1", "127.0.0.1", "pw"), stLogin("u1", "localhost", "pw"), stDmlDelete("u1", "localhost"), stLogin("u1", "localhost", "pw"),
+		},
+		{ // a role is a locked account without a password; unlocking it by DML makes it a login
+			stCreateRole("r1"), stLogin("r1", "10.1.2.3", ""), stDmlLock("r1", "%", false), stLogin("r1", "10.1.2.3", ""),
+			stDmlLock("r1", "%", true), stLogin("r1", "10.1.2.3", ""),
+		},
+		{ // finding create_user_account_lock_ignored
+			stCreateUser("u1", "%.corp", "", true), stLogin("u1", "a.corp", ""), stDmlLock("u1", "%.corp", true), stLogin("u1", "a.corp", ""),
+		},
+		{ // finding dml_update_keeps_old_row_of_scoped_account: through the pattern …
+			stCreateUser("a", "%.corp", "pw2", false), stGrantDb("a", "%.corp"), stLogin("a", "x.corp", "pw2"),
+			stDmlAuth("a", "%.corp", "pw"), stLogin("a", "x.corp", "pw2"), stLogin("a", "x.corp", "pw"),
+		},
+		{ // … and through the key itself
+			stCreateUser("a", "localhost", "pw2", false), stGrantDb("a", "localhost"), stDmlLock("a", "localhost", true), stLogin("a", "localhost", "pw2"),
+		},
+	}
+	for _, h := range hs {
+		runHistory(out, h, nil)
+		out.Stat("hist:corpus")
+	}
+}
+
 // runHistory executes the steps on a fresh engine and reports the case.
 func runHistory(out *hx.Out, steps []histStep, expect func(i int, obs string) (string, string)) {
 	e := eng.New("d")
@@ -344,7 +475,7 @@ func runHistory(out *hx.Out, steps []histStep, expect func(i int, obs string) (s
 	initial := searchOrder(db, -1)
 	ctx := e.Ctx()
 	salt := []byte{7, 7, 7, 7, 7, 7, 7, 7, 7, 7, 7, 7, 7, 7, 7, 7, 7, 7, 7, 7}
-	var evs, obs []string
+	var evs, obs, others []string
 	type fail struct{ tag, desc string }
 	var fails []fail
 	nLogins, nAfterChange := 0, 0
@@ -367,6 +498,7 @@ func runHistory(out *hx.Out, steps []histStep, expect func(i int, obs string) (s
 		}
 		o := apiLogin(db, l.user, l.host, salt, resp)
 		obs = append(obs, o)
+		others = append(others, otherEntryPoints(db, l.user, l.host, salt, resp))
 		nLogins++
 		if changed {
 			nAfterChange++
@@ -379,7 +511,7 @@ func runHistory(out *hx.Out, steps []histStep, expect func(i int, obs string) (s
 		}
 	}
 	payload := hx.List("hist", acctsPayload(initial), "("+strings.Join(evs, " ")+")")
-	id := out.Case(payload, strings.Join(obs, ";")+"|"+tableObs(db), nLogins >= 2 && nAfterChange >= 1)
+	id := out.Case(payload, strings.Join(obs, ";")+"|"+tableObs(db)+"|"+strings.Join(others, ";"), nLogins >= 2 && nAfterChange >= 1)
 	out.Stat("hist")
 	for _, f := range fails {
 		out.OracleFail(id, f.tag, f.desc)
@@ -392,14 +524,15 @@ func historyStream(out *hx.Out, a hx.RunArgs) {
 	if a.Thorough {
 		n = 8000
 	}
+	histCorpus(out)
 	for i := 0; i < n; i++ {
 		g := &histGen{r: r.Fork(), accts: map[string]*hAcct{}, gone: map[string][]string{}}
-			g.accts[hkey("root", "localhost")] = &hAcct{name: "root", host: "localhost", plugin: "mysql_native_password"}
+		g.accts[hkey("root", "localhost")] = &hAcct{name: "root", host: "localhost", plugin: "mysql_native_password"}
 		// the clients that keep coming back
 		type pair struct{ user, host string }
 		var focus []pair
 		for k, nf := 0, 1+g.r.Intn(2); k < nf; k++ {
-			focus = append(focus, pair{hx.Pick(g.r, []string{"u1", "u1", "u2", "u3", "root"}), hx.Pick(g.r, histClients)})
+			focus = append(focus, pair{hx.Pick(g.r, []string{"u1", "u1", "u1", "u2", "u2", "u3", "root"}), hx.Pick(g.r, histClients)})
 		}
 		var steps []histStep
 		type exp struct {
@@ -442,7 +575,17 @@ func historyStream(out *hx.Out, a hx.RunArgs) {
 			steps = append(steps, histStep{ev: hx.List("lg", hx.HexS(l.user), hx.HexS(l.host), hx.HexS(l.pw)), login: &ll})
 		}
 		nst := 3 + g.r.Intn(7)
-		// usually start with the accounts the returning clients resolve to
+		// usually start with the accounts the returning clients resolve to, and with a first visit
+		for _, f := range focus {
+			for _, h := range histHosts[f.user] {
+				if hostMatches(map[bool]string{true: "localhost", false: f.host}[f.host == "127.0.0.1"], f.host, h) && g.r.Chance(5, 6) {
+					steps = append(steps, g.create(f.user, h, hx.Pick(g.r, []string{"pw", "secret", "pw2", "pw", ""}), g.r.Chance(1, 12)))
+				}
+			}
+		}
+		if len(steps) > 0 {
+			addLogin()
+		}
 		for k := 0; k < nst; k++ {
 			before := map[string]*hAcct{}
 			for k2, a := range g.accts {
